@@ -739,11 +739,14 @@ func (r *runner) exec(c *Cmd) error {
 				if f.db == nil {
 					continue
 				}
-				want := 1
+				// (a follower restarted from a crash image may have left a handler of
+				// its previous incarnation behind: at least one, then)
+				n := r.outst[fmt.Sprintf("%d/%s", c.L, name)]
 				if r.faults[name].Fault == "absent" {
-					want = 0
-				}
-				if r.outst[fmt.Sprintf("%d/%s", c.L, name)] != want {
+					if n != 0 {
+						return false
+					}
+				} else if n < 1 {
 					return false
 				}
 			}
